@@ -36,7 +36,7 @@ STATE_MEASURE = "(files configured, dynamic_frames, fault kind, ordered body pai
 PROBES = [
     "vector_checked", "pair_both_directions", "create_frames_reentered", "dynamic_lookup_created_frames", "unknown_frame_refused", "mutated_then_queried_again",
     "registration_interleaved", "config_flip_after_first_use", "restart", "kernel_fault_fired", "without_pck", "date_last_minute_of_day", "analytic_history_independent",
-    "analytic_within_series_accuracy", "builtin_frame_to_body", "analytic_other_body_on_neighbouring_days",
+    "analytic_within_series_accuracy", "builtin_frame_to_body", "analytic_other_body_on_neighbouring_days", "reversed_propagator_checked", "non_cartesian_state_changed_body",
 ]
 REAL_VS_STUB = "real: beyond.env.jpl (Bsp/Pck singletons, JplPropagator, create_frames, get_orbit, get_frame), frames/centres routing, Date, jplephem reading the real DE403 2000-2020 kernel and the real PCK text files (faulted copies in a scratch directory); stub: none; model: own jplephem handle on the intact kernel chained segment by segment, own TDB (sim/models/timescales.py)"
 ASSUMPTIONS = [
@@ -117,7 +117,7 @@ def gen_plan(rng, tier, i):
         kn["fault"] = {"kind": rng.choice(["bsp_missing", "bsp_empty", "bsp_truncated", "pck_missing", "pck_damaged"]), "at": rng.random()}
     ops = []
     for _ in range(rng.randint(5, 12)):
-        k = rng.choice(["convert"] * 6 + ["get_orbit", "get_orbit", "mutate_again", "create", "create", "dynamic", "register", "flip", "restart", "analytic", "analytic"])
+        k = rng.choice(["convert"] * 6 + ["get_orbit", "get_orbit", "mutate_again", "create", "create", "dynamic", "register", "flip", "restart", "analytic", "analytic", "reverse", "kepler_probe", "kepler_probe"])
         op = {"op": k}
         if k == "convert":
             a, b = rng.sample(names + ["EME2000"], 2)
@@ -126,6 +126,11 @@ def gen_plan(rng, tier, i):
             op.update(name=rng.choice(names[1:]), date=gen_date(rng), how=rng.choice(["frame", "form", "values"]))
         elif k == "dynamic":
             op.update(name=rng.choice(names + ["Nope", "Vulcan"]))
+        elif k == "reverse":
+            op.update(name=rng.choice(names[1:]), date=gen_date(rng))
+        elif k == "kepler_probe":
+            a, b = rng.sample(["Earth", "Moon", "Sun", "MarsBarycenter", "VenusBarycenter", "JupiterBarycenter", "EarthBarycenter"], 2)
+            op.update(a=a, b=b, date=gen_date(rng), form=rng.choice(["keplerian", "keplerian_mean", "spherical", "equinoctial"]), r=rng.uniform(2e7, 2e8), ang=[rng.uniform(0, 6.28), rng.uniform(0.1, 3.0)])
         elif k == "register":
             op.update(what=rng.choice(["station", "orbit_frame"]), n=rng.randrange(1000))
         elif k == "flip":
@@ -395,6 +400,81 @@ class World:
                 else:
                     self.check_vector(np.array(o2, dtype=float), name, centre, op["date"], where + " (after the caller mutated the previous result)")
         ctx.sig.append(("get_orbit", name, mutate))
+
+    def op_reverse(self, op, where):
+        """A propagator built in the direction opposite to the file's segment (centre seen from its target): the negated segment,
+        position and velocity."""
+        ctx = self.ctx
+        n = self.node
+        jpl = n.mod("beyond.env.jpl")
+        if self.guarded(self.ensure_frames, where, "create_frames")[1] is not None:
+            return
+        m = model_kernel()
+        name = op["name"]
+        if name not in m["index"] or m["index"][name] not in m["seg"]:
+            return
+        centre = m["names"][m["seg"][m["index"][name]].center]
+        date = world.mk_date(n, op["date"][:2], op["date"][2])
+
+        def rev():
+            prop = jpl.JplPropagator(n.frames.get_frame(centre).center, n.frames.get_frame(name))
+            return prop.propagate(date)
+
+        o, exc = self.guarded(rev, where, f"reversed propagator {centre} seen from {name}")
+        if exc is not None:
+            return
+        ctx.probe("reversed_propagator_checked")
+        self.check_vector(np.array(o, dtype=float), centre, name, op["date"], where + " (reversed propagator)")
+
+    def op_kepler_probe(self, op, where):
+        """A state held in a non-cartesian form changes frame in place, from one body to another: the conversion back to the form
+        must use the new central body (needs the GM constants: only when the constant files are configured)."""
+        ctx = self.ctx
+        n = self.node
+        if not any(f.endswith("gm_de431.tpc") for f in self.files) or self.faulted:
+            return
+        if self.guarded(self.ensure_frames, where, "create_frames")[1] is not None:
+            return
+        a, b = op["a"], op["b"]
+        date = world.mk_date(n, op["date"][:2], op["date"][2])
+        try:
+            fa = n.frames.get_frame(a)
+            mu = fa.center.body.mu
+        except Exception:  # noqa
+            return
+        if not mu or not np.isfinite(mu) or mu <= 0:
+            return
+        r = op["r"]
+        v = np.sqrt(mu / r)
+        c1, c2 = op["ang"]
+        pos = r * np.array([np.cos(c1) * np.sin(c2), np.sin(c1) * np.sin(c2), np.cos(c2)])
+        e1 = np.cross(pos, [0.3, -0.5, 0.8])
+        e1 = e1 / np.linalg.norm(e1)
+        probe = np.concatenate([pos, 0.9 * v * e1])
+        sv = n.StateVector(probe, date, "cartesian", a)
+        sv.form = op["form"]
+        if not np.all(np.isfinite(np.asarray(sv, dtype=float))):
+            return
+        _, exc = self.guarded(lambda: setattr(sv, "frame", b), where, f"in-place frame change {a} -> {b} in {op['form']} form")
+        if exc is not None:
+            return
+        try:
+            got = np.array(sv.copy(form="cartesian"), dtype=float)
+        except Exception:  # noqa
+            return
+        if not np.all(np.isfinite(got)) or sv.form.name.lower() != n.mod("beyond.orbits.forms").get_form(op["form"]).name.lower():
+            return
+        jd = self.jd_tdb(op["date"])
+        want = self.model_vector(a, b, jd) + probe
+        tp, tv = self.tol(a, b, jd)
+        rel = 1e-7  # the round trip through the non-cartesian form (possibly hyperbolic about the new body) is not bit exact
+        dp = float(np.linalg.norm(got[:3] - want[:3]))
+        dv = float(np.linalg.norm(got[3:] - want[3:]))
+        ctx.checks += 1
+        ctx.probe("non_cartesian_state_changed_body")
+        ctx.observe("kepler_probe_rel", max(dp / np.linalg.norm(want[:3]), dv / np.linalg.norm(want[3:])))
+        if dp > tp + rel * np.linalg.norm(want[:3]) or dv > tv + rel * np.linalg.norm(want[3:]):
+            ctx.violate("jpl-vectors", {"kind": "non_cartesian_state_wrong_after_body_change", "form": op["form"]}, f"{where}: a state in {op['form']} form moved in place from frame {a} to frame {b}: off by {dp:.4g} m / {dv:.4g} m/s from the chained segments (|r| {np.linalg.norm(want[:3]):.3g} m, |v| {np.linalg.norm(want[3:]):.3g} m/s)")
 
     def op_mutate_again(self, op, where):
         self.op_get_orbit(op, where, mutate=True)
